@@ -51,6 +51,7 @@ FIXED = [
  ("F46", "C17", "ea78a02", "same commit: a write that failed after allocating a new L2 table (zeroing failed) left the L1 entry in place; no slice of the cluster was dirty, so a later flush_meta wrote the L1 block pointing to a never-zeroed cluster - garbage L2 entries in the file after healing + flush", "regress/C17/failed-settle-leaves-l1-entry-to-unzeroed-l2-cluster.json"),
  ("F47", "C16", "b7d474b", "commit_header() rewrote the header with a request whose length (e.g. 132 bytes) and buffer address were not aligned to the block size (reached when the first write beyond a short header l1_size extends it in place; pointed out by a sub-agent, confirmed once C16 got short-L1 images)", "regress/C16/header-rewrite-unaligned.json"),
  ("F48", "C04", "c1333bb", "a slice of a new L2 table cluster written back by a cache eviction (zero + write, no sync, clean afterwards) followed by flush_meta(): no dirty slice below the L1 block, so the block was written without a sync and a crash could keep L1 entry and slice but lose the zeroing - garbage in the rest of the L2 table (found by the thorough tier of C04, seed 1)", "regress/C04/l1-block-after-evicted-slice-of-new-l2-cluster.json"),
+ ("F49", "C17", "1b7b941", "former known finding C17-failed-zeroing-of-new-cluster-keeps-mapping, repaired by F43..F46 plus this commit: a write_at that failed after mapping a freshly allocated data cluster and before zeroing it (zeroing failed: mark stayed at 'zeroing started'; or an earlier step failed and discard later wrote the slice in place) left a mapping to the stale content of the cluster's previous use, live and after flush + reopen", "regress/C17/failed-zeroing-keeps-mark.json"),
  ("F11", "C03", "c069255", "writing to a zero-flagged cluster with a preallocation leaked the preallocated host cluster", "regress/C03/zero-prealloc-write-leaks.json"),
 ]
 KNOWN = [
@@ -109,16 +110,6 @@ KNOWN = [
            "'one write failed' / 'Fail to load l2 table' or loses mappings (a cache slice was evicted during a multi-cluster call)",
       rules=[], tags=["hist:eviction_during_concurrency"],
       reproducer="findings/C12-eviction-in-multi-cluster-write.json", domain="seq"),
- dict(id="C17-failed-zeroing-of-new-cluster-keeps-mapping", property="C17",
-      what="a write_at that fails after it mapped a freshly allocated data cluster but before that cluster was zeroed "
-           "(the hole punch and its zero-write fallback both fail; or an earlier step of the same call fails, e.g. the fsync "
-           "that makes a reused preallocation durable) returns Err but keeps the new mapping, which a later flush_meta "
-           "persists: the guest cluster then reads the stale content of the host cluster's previous use instead of its old "
-           "or new value (the violating guest cluster maps a host cluster that was in the new-cluster set right after a "
-           "failed write_at)",
-      rules=["ReadData", "Reopen", "Frame"], tags=["unzeroed_new_cluster_left_by_failed_write"],
-      reproducer="findings/C17-unzeroed-new-cluster.json",
-      reproducers=["findings/C17-unzeroed-new-cluster.json", "findings/C17-unzeroed-new-cluster-early-error.json"], domain="plans"),
  dict(id="C18-slice-eviction-under-concurrency", property="C18",
       what="same root cause as C06-slice-eviction-under-concurrency: an update made through a slice evicted while several "
            "tasks run is lost from the cache, so after flush_meta the flag is false although file and memory disagree "
